@@ -134,6 +134,7 @@ type Sim struct {
 	nroot       int
 	nativeAny   bool
 	afSeq       int
+	conds       map[*sync.Cond][]*condWaiter
 	timers      []time.Time // deadlines of timers created by instrumented library code
 }
 
@@ -154,7 +155,7 @@ func (s Strategy) String() string { return [...]string{"uniform", "burst", "prio
 
 // New creates a simulation. It must be called inside the bubble.
 func New(gen, sched *Source, maxStep int) *Sim {
-	s := &Sim{Gen: gen, Sched: sched, MaxStep: maxStep, SwitchPairs: map[string]struct{}{}}
+	s := &Sim{Gen: gen, Sched: sched, MaxStep: maxStep, SwitchPairs: map[string]struct{}{}, conds: map[*sync.Cond][]*condWaiter{}}
 	s.schedHash = 14695981039346656037
 	cur.Store(s)
 	return s
@@ -308,6 +309,67 @@ func ContextWithTimeout(ctx context.Context, d time.Duration) (context.Context, 
 func ContextWithDeadline(ctx context.Context, t time.Time) (context.Context, context.CancelFunc) {
 	register(time.Until(t))
 	return context.WithDeadline(ctx, t)
+}
+
+// CondWait replaces (*sync.Cond).Wait in instrumented code: the caller is queued
+// on the simulator's side, releases the Cond's lock and parks until it has been
+// signalled and the lock is free; then it takes the lock again.
+func CondWait(site string, c *sync.Cond) {
+	s := cur.Load()
+	if s == nil || s.dead.Load() || s.cur == nil {
+		c.Wait()
+		return
+	}
+	g := s.cur
+	w := &condWaiter{g: g}
+	s.conds[c] = append(s.conds[c], w)
+	c.L.Unlock()
+	tl, _ := c.L.(interface{ TryLock() bool })
+	s.park(g, site, func() bool {
+		if !w.signalled {
+			return false
+		}
+		if tl == nil {
+			return true
+		}
+		if tl.TryLock() {
+			c.L.Unlock()
+			return true
+		}
+		return false
+	})
+	c.L.Lock()
+}
+
+// CondSignal replaces (*sync.Cond).Signal.
+func CondSignal(c *sync.Cond) {
+	s := cur.Load()
+	if s == nil || s.dead.Load() || s.cur == nil {
+		c.Signal()
+		return
+	}
+	if q := s.conds[c]; len(q) > 0 {
+		q[0].signalled = true
+		s.conds[c] = q[1:]
+	}
+}
+
+// CondBroadcast replaces (*sync.Cond).Broadcast.
+func CondBroadcast(c *sync.Cond) {
+	s := cur.Load()
+	if s == nil || s.dead.Load() || s.cur == nil {
+		c.Broadcast()
+		return
+	}
+	for _, w := range s.conds[c] {
+		w.signalled = true
+	}
+	delete(s.conds, c)
+}
+
+type condWaiter struct {
+	g         *G
+	signalled bool
 }
 
 // adopt turns the calling goroutine, started by the Go runtime for an
